@@ -1524,11 +1524,52 @@ func TestVerifC06(t *testing.T) {
 	})
 
 	// ---- 7. sizes at the limits of the validation and of the LZW table
-	r.Phase("limits", r.N(32, 320), func(c *kit.Case) {
+	r.Phase("limits", r.N(72, 360), func(c *kit.Case) {
 		rg := c.Rng
 		var f pdf.Filter
 		var data []byte
-		switch c.Index % 8 {
+		switch c.Index % 9 {
+		case 8: // the tallest image the library documents (65536 rows), and taller ones
+			nrows := kit.Pick(rg, []int{65535, 65536, 65536, 65537, 70000})
+			fx := pdf.FilterCCITTFax{K: kit.Pick(rg, []int{-1, 0}), Columns: kit.Pick(rg, []int{8, 16}), BlackIs1: rg.Bool()}
+			if rg.Bool() {
+				fx.Rows = nrows
+			}
+			data := rg.Bytes(nrows * fx.Columns / 8)
+			what := fmt.Sprintf("%s with %d rows", c06FaxDesc(fx), nrows)
+			enc, err := c06Encode(fx, pdf.V1_7, data, 4096, rg)
+			if err != nil {
+				if nrows <= 65536 {
+					c.Violationf("tall-image/encode-error", "%s: %v", what, err)
+				} else {
+					c.R.Count("too_tall_images_refused_with_an_error", 1)
+				}
+				c.Distinct(fmt.Sprint(c.Index))
+				return
+			}
+			name, parms, err := fx.Info(pdf.V1_7)
+			if err != nil {
+				c.Violationf("tall-image/info-error", "%s: %v", what, err)
+				return
+			}
+			f2, err := pdf.MakeFilter(name, parms)
+			if err != nil {
+				c.Violationf("tall-image/make-filter", "%s: %v", what, err)
+				return
+			}
+			got, err := c06Decode(f2, pdf.V1_7, enc, 32768, 0, rg, len(data)+100)
+			switch {
+			case err == nil && bytes.Equal(got, data):
+				c.R.Count("tall_images_identical", 1)
+			case nrows <= 65536:
+				c.Violationf("tall-image/differs", "%s: read back %d of %d bytes (%v)", what, len(got), len(data), err)
+			case err == nil:
+				c.Violationf("tall-image/silently-truncated", "%s (beyond the documented image height): Encode accepted the rows, Decode returns %d of %d bytes and no error", what, len(got), len(data))
+			default:
+				c.R.Count("too_tall_images_refused_with_an_error", 1)
+			}
+			c.Distinct(fmt.Sprint(c.Index))
+			return
 		case 0: // widest predictor row the codec accepts
 			f = c06MakeFL(kit.Pick(rg, c06GridKinds), kit.Pick(rg, []int{2, 12, 14, 15}), 4, 16, 1<<16)
 			data = c06Rows(rg, c06RowBits(f), 2, rg.Intn(c06NumKinds))
